@@ -18,11 +18,12 @@ RULE = ("frames of 1..40 duplicate-free columns (random names incl. ' AND_REL ' 
 THEOREMS = ["C06_target_only", "C06_pairwise", "C06_3mr", "C06_spec_decidable", "C06_target_only_once",
             "C06_pairwise_multiplicity", "C06_clamp", "C06_selected", "C06_selected_min", "C06_transcription_selected",
             "C06_mirrored", "C06_constant_once", "C06_closed", "C06_requested", "C06_batch_spec",
-            "C06_rows_checker_exact", "C06_check_sound", "C06_model_ok", "C06_sorted_set_canonical"]
+            "C06_rows_checker_exact", "C06_fast_rows_checker", "C06_fast_cands_checker", "C06_check_sound", "C06_model_ok", "C06_sorted_set_canonical"]
 HEADER = ("From Coq Require Import List ZArith NArith Bool.\n"
           "From Outrank Require Import Pipeline.Sampler Pipeline.Combos.\n"
           "Import ListNotations.\nOpen Scope N_scope.")
 SRC = os.path.join(vlib.REPO, "outrank", "core_ranking.py")
+SEL_LIMIT = 120      # the imported sampler transcription is evaluated only on candidate lists up to this length (informational)
 
 
 # ---------------------------------------------------------------------------
@@ -287,25 +288,15 @@ def _expr(c, r):
     parts = dict(names=vlib.strlist(names), case=_case_term(c), cands=cands, rows="[" + "; ".join(rowsets) + "]",
                  samp=("[" + "; ".join(sampled) + "]") if have_sampled else "[]",
                  caps=vlib.zlist([r["cap_after_cands"]] + caps), cap_obs=vlib.zlit(cap_obs))
-    e = ("let names := %(names)s in let nm := fun i : nat => nth i names [] in\n"
-         " let c := %(case)s in\n"
-         " let ocands := map (fun ij : nat * nat => (nm (fst ij), nm (snd ij))) (%(cands)s)%%nat in\n"
-         " let orows := map (map (fun r : nat * nat * nat => (nm (fst (fst r)), nm (snd (fst r)), N.of_nat (snd r)))) (%(rows)s)%%nat in\n"
-         " let osamp := map (map (fun ij : nat * nat => (nm (fst ij), nm (snd ij)))) (%(samp)s)%%nat in\n"
-         " let cap' := eff_cap (c_heur c) (c_cap c) in\n"
-         " (cands_okb (c_cols c) (c_heur c) (c_tro c) (c_label c) ocands,\n"
-         "  forallb (fun z => Z.eqb z cap') (%(caps)s)%%Z,\n"
-         "  map (rows_okb (c_cols c) (c_heur c) ocands cap') orows,\n"
-         "  pairs_eqb (C06_cands c) ocands,\n"
-         "  C06_check c (mkObs ocands (%(cap_obs)s)%%Z orows),\n"
-         "  map (fun ab => same_ucounts (fst ab) (snd ab)) (combine (select_run [] (C06_cands c) cap' (c_batches c)) osamp),\n"
-         "  (length (C06_cands c), slice_len (length ocands) cap', nodup_strb (c_cols c) && memb (c_label c) (c_cols c)))" % parts)
+    with_sel = have_sampled and len(r["cands"]) <= SEL_LIMIT
+    parts["sel"] = vlib.blit(with_sel)
+    e = ("C06_eval %(names)s %(case)s (%(cands)s)%%nat (%(rows)s)%%nat (%(samp)s)%%nat (%(caps)s)%%Z (%(cap_obs)s)%%Z %(sel)s" % parts)
+    have_sampled = with_sel
     return e, have_sampled
 
 
 def _light_expr(c):
-    return ("let c := %s in let cap' := eff_cap (c_heur c) (c_cap c) in "
-            "(Z.of_nat (length (C06_cands c)), cap', Z.of_nat (slice_len (length (C06_cands c)) cap'))" % _case_term(c))
+    return "C06_eval_light %s" % _case_term(c)
 
 
 def _diagnose(c, r, bi):
@@ -363,8 +354,12 @@ def evaluate(cases, tag="C06"):
                           impl=dict(ncands=obs[0], caps=obs[1], nrows=obs[2]), model=dict(ncands=ncands, cap=cap2, nrows=mult * nsel),
                           list_differs=obs[0] != ncands, sel_differs=False, ncands=ncands, res=None)
             continue
-        cands_ok, cap_ok, rows_ok, list_eq, chk, sel_same, (ncm, nsel, pre) = v
-        good = bool(chk) and cands_ok and cap_ok and all(rows_ok)
+        chk, comp, list_eq, sel_same, (ncm, nsel, pre) = v
+        if comp is None:
+            cands_ok, cap_ok, rows_ok = True, True, [True] * len(r["batches"])
+        else:
+            cands_ok, cap_ok, rows_ok = comp[1]
+        good = bool(chk)
         clause = None
         if not pre:
             clause = "harness: case violates the precondition (duplicate-free columns containing the label)"
